@@ -348,6 +348,29 @@ PROPS["C05"] = dict(
     floor=dict(quick=20000, thorough=300000),
 )
 
+PROPS["C03"] = dict(
+    level="fault_enumeration",
+    technique="fault enumeration on deterministic real handshakes through a man-in-the-middle relay (every byte of every handshake / CCS / encrypted-Finished record XOR a mask; message-level drop / duplicate / swap / retype / shorten / extend / substitute; CCS edits), a server policy that picks un-offered suites, ClientHello version rewriting, and rapidcheck over an instrumented certificate validator (scripted verdict / key / usages)",
+    rule=("9 handshake kinds (ECDHE_RSA, RSA, ECDHE_ECDSA + EC client certificate + ALPN, static ECDH_ECDSA, ECDH_RSA, resumed, ChaCha20 + RSA client certificate, "
+          "TLS 1.0 CBC, resumed + client certificate; TLS 1.0-1.2; mono / bidi / split buffers). One evaluation = one fault applied to a fresh connection "
+          "whose prefix is byte-identical to the reference run (checked), run to quiescence, end of transport delivered to whoever is still open; the "
+          "destination of the altered bytes must never be ready, must end closed with an error, and no application byte may be delivered anywhere. "
+          "M2: client narrowed from the full profile to 1..3 suites x forced suite (stale slot / any other); M3: 9 suites x validating side x 13 verdicts x 7 "
+          "key sources x 5 usage masks, with the exact-chain / exact-name observation and the positive expectation when everything fits. "
+          "non-trivial = every faulted evaluation (the prefix of a real handshake was accepted); distinct = (kind, direction, record, offset, mask) / "
+          "(kind, direction, edit, message) / scenario description"),
+    assumptions=["single-fault model (one alteration per connection)",
+                 "record headers are not authenticated by the handshake and are not altered here (C02 / C05 cover them)",
+                 "a message identical in both handshakes (ServerHelloDone) is not a substitution and is counted as excluded",
+                 "static-ECDH client authentication is judged one-directionally (which mode the client picks is its own policy)"],
+    targets=[dict(name="c03_handshake", src="c03_handshake.cpp", flavour="san", libs=SSL_LIBS, noseed=True)],
+    quick=[("c03_handshake", "enum", dict(shards=16)),
+           ("c03_handshake", "rc", dict(cases=16000, shards=16))],
+    thorough=[("c03_handshake", "enum", dict(shards=16)),
+              ("c03_handshake", "rc", dict(cases=120000, shards=16))],
+    floor=dict(quick=8000, thorough=60000),
+)
+
 # ---------------------------------------------------------------- manifest text
 HOOK_COMMITS = ["b37444c", "e1637c5"]
 NOT_APPLICABLE = {}
@@ -512,4 +535,15 @@ MANIFEST_TEXT["C05"] = dict(
           "never both reported, that returned pointers lie inside the context, and that an open engine never stops taking input while offering nothing."),
     design_ref="DESIGN.md section 4, C05",
     note="absence of memory errors is not proved; the boundary enumerator makes the known internal limits (520/512/256/133-byte areas, 3*512 key_data, 48 suites, 32 VM slots) certain to be visited",
+)
+
+MANIFEST_TEXT["C03"] = dict(
+    text=("Systematic in-flight mutation of real handshakes: both endpoints get fixed entropy, so a connection is byte-identical to its reference "
+          "run up to the fault; the enumerator alters every byte of every handshake, ChangeCipherSpec and encrypted Finished record of both "
+          "flights for nine handshake kinds (certificate bodies sampled 1-in-2 in the quick tier, four masks per byte in thorough) and applies "
+          "every message-level edit at every message; rapidcheck adds random masks, a server policy choosing suites that were not offered "
+          "(including the stale table slot after a narrowed client list), version rewriting, and an instrumented certificate validator whose "
+          "verdict, returned key and usages are scripted on either side."),
+    design_ref="DESIGN.md section 4, C03",
+    note="renegotiated handshakes are altered only as ciphertext (C02); the Finished computation itself is checked against OpenSSL peers in C01",
 )
